@@ -852,8 +852,9 @@ pub fn check_levels(rc: &RunCtx, cx: &mut Ctx) -> (bool, bool) {
                 let fs = rc.run.final_state.as_ref().unwrap();
                 let km = fs.total_dist.value / 1000.0;
                 let mg = fs.mass_freight.value / 1000.0;
-                let n_res = rc.case.train.units.iter().filter(|u| u.is_bel()).count() as f64;
-                let n_non = rc.case.train.units.len() as f64 - n_res;
+                // battery-equipped units: battery-electric and hybrid locomotives
+                let n_res = rc.case.train.units.iter().filter(|u| u.is_bel()).count() as f64 + rc.case.train.hybrids as f64;
+                let n_non = (rc.case.train.units.len() + rc.case.train.hybrids) as f64 - n_res;
                 for (name, base) in [
                     ("energy_fuel", fuel),
                     ("net_energy_res", res),
